@@ -373,7 +373,7 @@ PLANS["C11"] = Plan(
                "moptipyapps.dynamic_control.objective:FigureOfMerit.initialize",
                "moptipyapps.dynamic_control.objective:FigureOfMerit.__append"],
     bounded=[bounded.fom.harness],
-    extra=[contracts.fom.prove_c11],
+    extra=[contracts.fom.prove_c11, contracts.fom.prove_c11_surrogate],
     explanation="proved (object state against the abstract view mode/collecting/collected blocks): evaluate returns one fixed "
                 "expression in (x, configuration, current equations): every read of the re-used buffer __results is preceded "
                 "by a write in the same call (so earlier evaluations cannot leak in), the aggregate is taken over the figures "
@@ -382,7 +382,9 @@ PLANS["C11"] = Plan(
                 "sum_up_results bodies are the documented aggregates; initialize clears the collected data and returns to "
                 "raw mode (modular call of set_raw's contract); set_raw restores the real equations and collects "
                 "iff model mode is supported; set_model raises iff it is not supported, otherwise installs the model and stops "
-                "collecting; both assign nothing but the two mode fields. bounded interleaving monitor on the real FigureOfMerit / FigureOfMeritLE objects: evaluate(x) after arbitrary "
+                "collecting; both assign nothing but the two mode fields; in SurrogateOptimizer.solve the switch to the model is "
+                "bracketed (control-flow facts of the real source: set_raw follows set_model in the same statement list with no "
+                "early exit in between, initialize is disabled before and restored to the saved original afterwards). bounded interleaving monitor on the real FigureOfMerit / FigureOfMeritLE objects: evaluate(x) after arbitrary "
                 "sequences of evaluate / initialize / set_model / set_raw / get_differentials equals evaluate(x) of a fresh "
                 "object and an independent recomputation of the documented aggregate; values in [0, 1e100] or 1e200; collected "
                 "training rows accounted exactly (grow only in raw mode, unchanged by get_differentials, cleared by initialize)",
